@@ -17,7 +17,7 @@
    A directory is a finite map name -> content ([view], association list, first binding counts).  Durability
    ([fsys]): names bind inodes; an inode has a volatile and a durable content; directory operations since the
    last sync of the directory are pending.  A crash keeps ANY SUBSET of the pending directory operations
-   (each of them atomic: rename is atomic) and, per inode, its last fsync'ed content or — when it was
+   (each of them atomic; a rename persists as "the new name binds THAT inode, the old name is gone") and, per inode, its last fsync'ed content or — when it was
    truncated or created since — any prefix of its volatile content (an append-only file keeps its synced
    content plus any prefix of what was appended).
 
@@ -470,13 +470,13 @@ Definition open_file_view (ro : bool) (v : view) : view :=
 
 Inductive dop :=
 | DLink (n : bytes) (i : N)      (* a new name for the new inode i *)
-| DRename (a b : bytes)
+| DRename (a b : bytes) (i : N)  (* the name a is removed and b names the inode i that a named (atomically) *)
 | DUnlink (n : bytes).
 
 Definition dapply (e : list (bytes * N)) (o : dop) : list (bytes * N) :=
   match o with
   | DLink n i => set_at e n i
-  | DRename a b => rename_at e a b
+  | DRename a b i => set_at (remove_at e a) b i
   | DUnlink n => remove_at e n
   end.
 
@@ -524,7 +524,7 @@ Definition fapply (s : fsys) (o : fsop) : fsys :=
       end
   | ORename a b =>
       match lookup (ents s) a with
-      | Some _ => FS (rename_at (ents s) a b) (dents s) (pdir s ++ [DRename a b]) (inos s) (next s)
+      | Some i => FS (rename_at (ents s) a b) (dents s) (pdir s ++ [DRename a b i]) (inos s) (next s)
       | None => s
       end
   | OUnlink n =>
@@ -544,7 +544,7 @@ Definition view_of (t : list (N * inode)) (e : list (bytes * N)) (f : inode -> b
 Definition vol_view (s : fsys) : view := view_of (inos s) (ents s) vdata.
 
 (* the directory after a crash: pending directory operations kept where the mask says so (missing bits: lost) *)
-Fixpoint image_ents (mask : list bool) (ops : list dop) (e : list (bytes * N)) : list (bytes * N) :=
+Fixpoint image_ents (mask : list bool) (ops : list dop) (e : list (bytes * N)) {struct ops} : list (bytes * N) :=
   match ops with
   | [] => e
   | o :: ops' =>
